@@ -48,3 +48,23 @@ Example C17_example :
   map (fun e => (ex e, exm e, esm e)) (z_excl z) = [(-50, -5, 1); (-5, 5, 5); (5, 10, 7); (20, 25, 3); (25, 40, 1); (45, 50, 1)]
   /\ z_pos z < z_posm z.
 Proof. vm_compute. split; reflexivity. Qed.
+
+(* ---- the limit clause, over the definitions regenerated from ShiftCollider::initSlot / resolve (Gen/GenColl.v) *)
+From GR Require Import Gen.GenColl Proofs.GenAgreeColl.
+(* When the limit rectangle is well formed and the glyph currently sits inside it, every position inside the range of an axis
+   maps, through resolve()'s own arithmetic, to a shift with offset + shift inside the limit rectangle (coordinates doubled so
+   that the diagonal halves stay integral).  Together with C17_closest_in_zone: every shift the fixer computes respects the limit. *)
+Theorem C17_limit_respected : forall Lbx Lby Ltx Lty ox oy sx sy, Lbx <= Ltx -> Lby <= Lty -> (Lbx <= ox + sx <= Ltx /\ Lby <= oy + sy <= Lty) ->
+  (forall p, range_mn0 Lbx Lby Ltx Lty ox oy sx sy <= p <= range_mx0 Lbx Lby Ltx Lty ox oy sx sy -> inside2 Lbx Lby Ltx Lty ox oy (testp2_0 sx sy (p - tbase0 ox oy))) /\
+  (forall p, range_mn1 Lbx Lby Ltx Lty ox oy sx sy <= p <= range_mx1 Lbx Lby Ltx Lty ox oy sx sy -> inside2 Lbx Lby Ltx Lty ox oy (testp2_1 sx sy (p - tbase1 ox oy))) /\
+  (forall p, range_mn2 Lbx Lby Ltx Lty ox oy sx sy <= p <= range_mx2 Lbx Lby Ltx Lty ox oy sx sy -> inside2 Lbx Lby Ltx Lty ox oy (testp2_2 sx sy (p - tbase2 ox oy))) /\
+  (forall p, range_mn3 Lbx Lby Ltx Lty ox oy sx sy <= p <= range_mx3 Lbx Lby Ltx Lty ox oy sx sy -> inside2 Lbx Lby Ltx Lty ox oy (testp2_3 sx sy (p - tbase3 ox oy))).
+Proof. exact coll_limit_respected. Qed.
+Print Assumptions C17_limit_respected.
+
+(* the four ranges are well formed zones (hypothesis xmin <= xmax of C17_zones_reachable) *)
+Theorem C17_ranges_wellformed : forall Lbx Lby Ltx Lty ox oy sx sy, Lbx <= Ltx -> Lby <= Lty -> (Lbx <= ox + sx <= Ltx /\ Lby <= oy + sy <= Lty) ->
+  range_mn0 Lbx Lby Ltx Lty ox oy sx sy <= range_mx0 Lbx Lby Ltx Lty ox oy sx sy /\ range_mn1 Lbx Lby Ltx Lty ox oy sx sy <= range_mx1 Lbx Lby Ltx Lty ox oy sx sy /\
+  range_mn2 Lbx Lby Ltx Lty ox oy sx sy <= range_mx2 Lbx Lby Ltx Lty ox oy sx sy /\ range_mn3 Lbx Lby Ltx Lty ox oy sx sy <= range_mx3 Lbx Lby Ltx Lty ox oy sx sy.
+Proof. exact ranges_wf. Qed.
+Print Assumptions C17_ranges_wellformed.
